@@ -38,6 +38,9 @@ def classify(body):
 
 
 def load(ctx):
+    if not getattr(ctx, "astexport", True):
+        ctx.dropped["corpus-skipped-no-astexport"] = 1
+        return []
     wd = ctx.sub("corpus")
     p0, p1 = os.path.join(wd, "t0.ndjson"), os.path.join(wd, "t1.ndjson")
     import vlib
